@@ -1038,6 +1038,22 @@ impl<'a> Iterator for SelectorIter<'a> {
                                 return None;
                             } else {
                                 let result = self.get_internal_ranged_item(self.selector);
+                                if self.recurse_annotation {
+                                    //higher-order annotation, just as for an annotation selector that was not merged into a range
+                                    let handle = AnnotationHandle::new(begin.as_usize() + self.cursor_in_range);
+                                    let annotation: &Annotation = self
+                                        .store
+                                        .get(handle)
+                                        .expect("referenced annotation must exist");
+                                    self.subiterstack.push(SelectorIter {
+                                        selector: annotation.target(),
+                                        subiterstack: Vec::new(),
+                                        cursor_in_range: 0,
+                                        recurse_annotation: self.recurse_annotation,
+                                        store: self.store,
+                                        done: false,
+                                    });
+                                }
                                 self.cursor_in_range += 1;
                                 return Some(result);
                             }
@@ -1069,10 +1085,10 @@ impl<'a> Iterator for SelectorIter<'a> {
                 let result = self.subiterstack.last_mut().unwrap().next();
                 if result.is_none() {
                     self.subiterstack.pop();
-                    if self.subiterstack.is_empty() {
+                    if self.subiterstack.is_empty() && self.done {
                         return None;
                     } else {
-                        continue; //recursion
+                        continue; //recursion (or the next item of an internal range)
                     }
                 } else {
                     return result;
